@@ -24,7 +24,9 @@ FORMAT = 1
 DEFAULT_SEED = 20261004
 
 QUICK_RUNS = {"C09": 1400, "C10": 1000, "C08": 6000}
+MIN_RUNS = {"C09": 560, "C10": 200, "C08": 800}
 GEN_SIZE = 512
+MINIMISE_WALL_S = 240
 TITLES = {"C08": "identity caches and pickling across 1-2 interpreters",
           "C09": "lazy loading vs history", "C10": "private-table isolation"}
 
@@ -52,9 +54,7 @@ def canonical(repo):
         n.kill()
     h1 = {g: h for g, (h, _) in d1.items()}
     h2 = {g: h for g, (h, _) in d2.items()}
-    if h1 != h2:
-        raise HarnessError("canonical run is not self-consistent: %r" %
-                           sorted(g for g in h1 if h1[g] != h2[g]))
+    unstable = sorted(g for g in h1 if h1[g] != h2[g])
     n = NodeHandle(repo, "fork", timeout=120.0)
     try:
         d3 = n.call("digest", "public", E.PUBLIC_GROUPS, None, False)
@@ -64,7 +64,7 @@ def canonical(repo):
     if h3 != h1:
         raise HarnessError("forked canonical run differs from fresh one: %r" %
                            sorted(g for g in h1 if h1[g] != h3[g]))
-    return vocab, h1
+    return vocab, h1, unstable
 
 
 # ------------------------------------------------------------------ replay files
@@ -137,16 +137,28 @@ def context_of(run, trace):
     return {"pending": pend}
 
 
-def check(prop, tier, master, workers, budget_s, nruns, repo):
+def check(prop, tier, master, workers, budget_s, nruns, repo, write_evidence=True):
     t0 = time.time()
     log("VERIF_SEED=%d property=%s tier=%s workers=%d repo=%s" % (master, prop, tier, workers, repo))
-    vocab, canon_hashes = canonical(repo)
+    vocab, canon_hashes, unstable = canonical(repo)
     V = E.Vocab(vocab)
     findings = known.open_findings(prop)
     status = {"violations": 0, "harness": []}
+    degraded = bool(unstable)
+    if degraded:
+        # Reading the public table twice in one fresh interpreter gave different values.  That is
+        # itself a violation of C09 ("how many times"); it is reported through the ordinary path
+        # (oracle O3 on a tiny batch, minimised, replayed).  The other properties cannot be judged
+        # against a reference that does not hold still.
+        if prop != "C09":
+            raise HarnessError("canonical run is not self-consistent (groups %r): C09 is violated; "
+                               "%s cannot be judged on this tree" % (unstable, prop))
+        log("note: canonical digest is not idempotent for groups %r; running a reduced batch" % (unstable,))
+        nruns = min(nruns, 48)
+        tier = "quick"
 
     W = runner.Worker(repo)      # local worker: minimisation, replay, determinism cells
-    if W.canon_hashes != canon_hashes:
+    if W.canon_hashes != canon_hashes and not degraded:
         raise HarnessError("worker replica digest differs from canonical digest")
 
     # known findings must still reproduce from their committed replay files
@@ -161,9 +173,10 @@ def check(prop, tier, master, workers, budget_s, nruns, repo):
         else:
             log("note: known finding %s no longer reproduces from %s; its rule is disabled" % (k["id"], k["replay"]))
 
-    agg = {"n": 0, "steps": 0, "fired": {}, "states": set(), "trans": set(), "seqs": {},
+    agg = {"n": 0, "steps": 0, "fired": {}, "states": set(), "trans": set(), "seqs": {}, "pairs": set(),
            "fail": [], "hashes": {}, "samples": [], "notes": {}}
     last_new_state_run = 0
+    gen_log = []
     bias = None
     ex = pool.make_pool(workers, repo)
     try:
@@ -178,7 +191,8 @@ def check(prop, tier, master, workers, budget_s, nruns, repo):
             tasks = []
             idx = lo
             while idx < hi:
-                tasks.append((prop, master, tier, idx, min(idx + chunk, hi), bias, (idx // chunk) % 16 == 15))
+                tasks.append((prop, master, tier, idx, min(idx + chunk, hi), bias,
+                              (idx // chunk) % 16 == 15 and not degraded))
                 idx += chunk
             nstates = len(agg["trans"])
             for res in ex.map(pool.run_chunk, tasks):
@@ -191,6 +205,7 @@ def check(prop, tier, master, workers, budget_s, nruns, repo):
                 for k, v in res["notes"].items():
                     agg["notes"][k] = agg["notes"].get(k, 0) + v
                 agg["states"] |= res["states"]
+                agg["pairs"] |= res["pairs"]
                 agg["trans"] |= res["trans"]
                 for k, v in res["seqs"].items():
                     agg["seqs"][k] = agg["seqs"].get(k, False) or v
@@ -200,6 +215,8 @@ def check(prop, tier, master, workers, budget_s, nruns, repo):
                     agg["samples"] += res["samples"][:1]
             if len(agg["trans"]) > nstates:
                 last_new_state_run = hi
+            gen_log.append({"generation": gen, "runs": agg["n"], "transitions": len(agg["trans"]),
+                            "state_event_pairs": len(agg["pairs"])})
             lo = hi
             gen += 1
             if status["harness"]:
@@ -213,7 +230,7 @@ def check(prop, tier, master, workers, budget_s, nruns, repo):
 
     # determinism sub-check: same runs, fork and fresh subprocess, in this process
     det = {"cells": 0, "mismatch": []}
-    if not status["harness"]:
+    if not status["harness"] and not degraded:
         ndet = 12 if tier == "quick" else 40
         step = max(1, agg["n"] // ndet)
         for i in list(range(0, agg["n"], step))[:ndet]:
@@ -245,6 +262,7 @@ def check(prop, tier, master, workers, budget_s, nruns, repo):
     if classes and not status["harness"]:
         order = sorted(classes, key=lambda t: (len(classes[t]["run"]["events"]), t))
         covered = set()
+        t_min0 = time.time()
         for t in order:
             if len(reported) >= 5:
                 break
@@ -258,7 +276,11 @@ def check(prop, tier, master, workers, budget_s, nruns, repo):
                 ts = {runner.triple(v) for v in vv}
                 _, rest = known.explain(live, cand, None, ts)
                 return t in rest
-            small = minimise.minimise(still, f["run"], 300)
+            left = MINIMISE_WALL_S - (time.time() - t_min0)
+            if left > 0:
+                small = minimise.minimise(still, f["run"], 150, deadline=time.time() + left)
+            else:
+                small = dict(f["run"], minimise_runs=0, not_minimised="wall-clock cap for minimisation reached")
             tr = W.execute(small, mode="subprocess")
             vv = W.judge(small, tr)
             ts = {runner.triple(v) for v in vv}
@@ -275,7 +297,8 @@ def check(prop, tier, master, workers, budget_s, nruns, repo):
             reported.append((t, path, small))
             min_stats.append({"class": list(t), "from": len(f["run"]["events"]),
                               "to": len(small["events"]), "runs": small.get("minimise_runs")})
-    W.check_replica()
+    if not degraded:
+        W.check_replica()
     W.close()
 
     wall = time.time() - t0
@@ -303,6 +326,8 @@ def check(prop, tier, master, workers, budget_s, nruns, repo):
             "abstract_states": len(agg["states"]),
             "abstract_transitions": len(agg["trans"]),
             "last_run_with_new_transition": last_new_state_run,
+            "state_event_pairs": len(agg["pairs"]),
+            "generations": gen_log[-40:],
             "components": {"real": ["CPython %s" % platform.python_version(), "periodictable (working tree)",
                                     "numpy", "pyparsing", "pickle", "data files"], "stubbed": []},
             "determinism_subcheck": det,
@@ -321,9 +346,10 @@ def check(prop, tier, master, workers, budget_s, nruns, repo):
             "known-finding rules attribute matching symptoms in histories that contain the known trigger",
         ],
     }
-    os.makedirs(os.path.join(VERIF_DIR, "evidence"), exist_ok=True)
-    with open(os.path.join(VERIF_DIR, "evidence", prop + ".json"), "w") as f:
-        json.dump(ev, f, indent=1, sort_keys=True, default=str)
+    if write_evidence:
+        os.makedirs(os.path.join(VERIF_DIR, "evidence"), exist_ok=True)
+        with open(os.path.join(VERIF_DIR, "evidence", prop + ".json"), "w") as f:
+            json.dump(ev, f, indent=1, sort_keys=True, default=str)
 
     log("%s %s: %d runs, %d steps, %.1fs (%.0f runs/h), %d distinct non-trivial sequences, "
         "%d abstract states, %d transitions, failing runs %d" % (
@@ -359,23 +385,9 @@ def expected_faults(prop):
 
 
 def make_bias(agg):
-    """Bias table for the next greybox generation: (abstract state, event group) pairs already seen."""
-    seen = {}
-    for st, g in agg["trans"]:
-        key = hashlib.blake2b(repr(st).encode(), digest_size=6).hexdigest()
-        seen.setdefault(key, set()).add(g)
-    return {"seen_groups": sorted({g for _, g in agg["trans"]}),
-            "rare": rare_groups(agg)}
-
-
-def rare_groups(agg):
-    cnt = {}
-    for _, g in agg["trans"]:
-        cnt[g] = cnt.get(g, 0) + 1
-    if not cnt:
-        return []
-    med = sorted(cnt.values())[len(cnt) // 2]
-    return sorted(g for g, c in cnt.items() if c < med)
+    """Bias table for the next greybox generation: (pending public groups, event group) pairs
+    executed by earlier generations (a function of VERIF_SEED and the tree only)."""
+    return {"pairs": frozenset(agg["pairs"])}
 
 
 def bias_for_index(i, bias):
@@ -394,6 +406,7 @@ def main(argv=None):
     ap.add_argument("--runs", type=int, default=None)
     ap.add_argument("--workers", type=int, default=int(os.environ.get("VERIF_WORKERS", "16")))
     ap.add_argument("--budget", type=float, default=float(os.environ.get("VERIF_BUDGET_S", "900")))
+    ap.add_argument("--no-evidence", action="store_true")
     a = ap.parse_args(argv)
     master = int(os.environ.get("VERIF_SEED", DEFAULT_SEED))
     repo = proc.repo_root()
@@ -403,8 +416,11 @@ def main(argv=None):
         if what in ("c08", "c09", "c10"):
             prop = what.upper()
             tier = a.tier if a.tier in ("quick", "thorough") else "quick"
-            nruns = a.runs or QUICK_RUNS[prop]
-            return check(prop, tier, master, a.workers, a.budget, nruns, repo)
+            workers = max(1, min(a.workers, os.cpu_count() or 1))
+            a.workers = workers
+            # fewer cores: fewer seeded runs, but never fewer than the stratified prefix
+            nruns = a.runs or max(MIN_RUNS[prop], int(QUICK_RUNS[prop] * min(1.0, workers / 16.0)))
+            return check(prop, tier, master, a.workers, a.budget, nruns, repo, not a.no_evidence)
         if what == "replay":
             ok, viol = replay_file(a.arg)
             for v in viol:
